@@ -90,6 +90,7 @@ type rSpecOpts struct {
 	TypeStart int
 	VarNames  [][]string // per template
 	Cors      bool
+	DeclOrder int // 0 template order, 1 reversed, 2 last variable at path-item level
 }
 
 func renderRouterSpec(o rSpecOpts) string {
@@ -98,9 +99,12 @@ func renderRouterSpec(o rSpecOpts) string {
 	sb.WriteString(o.Base.Servers)
 	sb.WriteString("paths:\n")
 	ti := o.TypeStart
+	itemLevel := map[int]string{}
+	outer := &sb
 	for i, t := range o.Templates {
 		vn := o.VarNames[i]
-		fmt.Fprintf(&sb, "  %s:\n", t.String(vn))
+		var sb strings.Builder
+		defer func(i int, t rTemplate, vn []string, body *strings.Builder) {}(i, t, vn, &sb)
 		for _, m := range o.Methods[i] {
 			fmt.Fprintf(&sb, "    %s:\n", m)
 			vi := 0
@@ -112,11 +116,30 @@ func renderRouterSpec(o rSpecOpts) string {
 					ti++
 				}
 			}
+			// declaration order is independent of template order (OpenAPI does not
+			// tie them): reversed for some specs, and for others the last
+			// variable is declared at path-item level
+			if o.DeclOrder == 1 {
+				for a, b := 0, len(params)-1; a < b; a, b = a+1, b-1 {
+					params[a], params[b] = params[b], params[a]
+				}
+			}
+			if o.DeclOrder == 2 && len(params) > 1 {
+				if _, done := itemLevel[i]; !done {
+					itemLevel[i] = strings.ReplaceAll(params[len(params)-1], "        ", "      ")
+				}
+				params = params[:len(params)-1]
+			}
 			if len(params) > 0 {
 				sb.WriteString("      parameters:\n" + strings.Join(params, ""))
 			}
 			sb.WriteString("      responses:\n        '200':\n          description: ok\n        default:\n          description: other\n")
 		}
+		fmt.Fprintf(outer, "  %s:\n", t.String(vn))
+		if il, ok := itemLevel[i]; ok {
+			outer.WriteString("    parameters:\n" + il)
+		}
+		outer.WriteString(sb.String())
 	}
 	sb.WriteString("components:\n  schemas:\n    PathID:\n      type: integer\n      format: int64\n")
 	return sb.String()
@@ -181,7 +204,7 @@ func genRouterFamily(c *Ctx, filter func(string) bool) {
 		if filter != nil && !filter(name) {
 			continue
 		}
-		o := rSpecOpts{Templates: set, Base: baseForms[i%len(baseForms)], TypeStart: i}
+		o := rSpecOpts{Templates: set, Base: baseForms[i%len(baseForms)], TypeStart: i, DeclOrder: i % 3}
 		for j := range set {
 			o.Methods = append(o.Methods, methodSets[(i+j)%len(methodSets)])
 			if c.Tier == "thorough" && i%5 == 4 {
